@@ -38,6 +38,7 @@ class Ctx:
     def undecided(self, rule, key, site="", detail=""):
         self.obs.append({"rule": rule, "key": f"{rule}|{key}", "ok": True, "site": site, "detail": "UNDECIDED: " + detail,
                          "nontrivial": False, "undecided": True, "config": self.config})
+        self.counts[rule] = self.counts.get(rule, 0) + 1      # the anchor was found (the floor guards against vanished anchors); it could not be interpreted
 
     def floor(self, rule, minimum):
         """fail closed when a rule matched fewer instances than were confirmed by hand"""
